@@ -86,8 +86,10 @@ fixed(['C13', 'C12'], '0351ab5', 'ratFromString (after 22b70e2) computed 10^expo
 
 fixed(['C17', 'C07'], '1a8125c', 'SoPlexBase::operator= leaked the rational LP held by the assigned-to object (found by the copy operation with a rational LP present, LSan key leak:SoPlexBase::setIntParam|SoPlexBase::_syncLPRational)')
 
+fixed(['C03', 'C04'], 'e57a248', '_untransformEquality evaluated sol._redCost[col].str() / sol._dual[row].str() for a debug message although both vectors can be empty (eqtrans=1 with a basis but no dual solution): SIGSEGV in the exact solve')
+
 # ------------------------------------------------------------------ open findings
-UND = r'(ABORT_CYCLING|RUNNING|UNKNOWN|ERROR|SINGULAR)'
+UND = r'(ABORT_CYCLING|RUNNING|UNKNOWN|ERROR|SINGULAR|NO_PROBLEM|NOT_INIT)'
 # --- simplex core
 open_(SOLVE, r'(netlib\.)?(cert\.|reuse\.|resolve\.|.*\.resume\.|.*wrong-verdict|complete\.|.*harmless|basis\.|resolve-after|copy-|twins|dependent).*:\{.*solution_polishing=[12].*\}.*',
       'solution polishing (solution_polishing=1|2) returns OPTIMAL with slack != Ax, bound violations or a wrong status after its extra pivots', regex=True,
@@ -106,8 +108,8 @@ open_(['C05'], r'(mult\.(value|nonfinite)\.rep=row\.(scaled|unscaled)(\.internal
 open_(['C05'], r'crash:.*(getBasisInverseColReal|getBasisInverseRowReal|getRowScaleExp).*',
       'row representation: getBasisInverseColReal indexes the scale-exponent array with a basis index (heap-buffer-overflow / use-after-free)', regex=True)
 open_(['C05'], r'crash:(nonrepro-)?signal:SIG(SEGV|ABRT|FPE|BUS):.*', 'row representation: the out-of-bounds writes of getBasisInverseColReal corrupt the heap of the non-sanitized volume build; the process dies later at an unrelated place (not reproducible per case)', regex=True)
-open_(['C17', 'C01', 'C02'], r'(history-dependent\.status\.OPTIMAL|complete\.OPTIMAL|cert\.(dualsign|rowdual)[a-z.\-]*):\{[^}]*starter=[123][^}]*\}.*',
-      'nonbasic free rows are never priced: SPxSolverBase::coTest() has no P_FREE case (and entering one throws XENTER02 "not yet debugged"), so a basis with a nonbasic free row - produced by the weight/sum/vector starters - is reported OPTIMAL with a nonzero dual on the free row, e.g. for an unbounded LP (same root cause as the C06 free-row warm start finding)', regex=True,
+open_(SOLVE + ['C14'], r'(netlib\.)?(history-dependent|complete|cert|verdict|wrong-verdict|reuse|resolve|basis|[a-z]+\.resume|state)[A-Za-z0-9_.\-]*:\{[^}]*starter=[123][^}]*\}.*',
+      'nonbasic free rows are never priced: SPxSolverBase::coTest() has no P_FREE case (and entering one throws XENTER02 "not yet debugged"), so a start basis with a nonbasic free row - produced by the weight/sum/vector starters (minimal cell contains starter=1|2|3) - is reported OPTIMAL with a nonzero dual on the free row, e.g. for an unbounded LP, or ends RUNNING/ERROR after the internal exception (same root cause as the C06 free-row warm start finding; 87 % of the disagreements of the design-phase calibration)', regex=True,
       repro='findings/C17_starter_free_row_optimal.cpp')
 open_(['C01'], r'cert\.(bound|side):\{[^}]*ratiotester=0[^}]*scaler=0[^}]*\}.*',
       'textbook ratio test (ratiotester=0) with scaling switched off on a badly scaled LP: OPTIMAL is reported with a bound violated far beyond the tolerance (2e-3 on a variable boxed in +-7e-4); the final verification does not catch it', regex=True,
@@ -115,9 +117,9 @@ open_(['C01'], r'cert\.(bound|side):\{[^}]*ratiotester=0[^}]*scaler=0[^}]*\}.*',
 open_(['C17'], r'resolve-after-clearBasis-differs:.*',
       'solving the same unmodified object again after clearBasis() is not a replica of the first solve (different iteration count / vertex in 1-3% of the LPs): per-solve state survives clearBasis()', regex=True)
 # --- exact solver
-open_(['C03'], r'undecided\.ABORT_ITER:\{[^}]*recovery_mechanism=1[^}]*\}.*',
-      'exact solve with the recovery mechanism switched on (bool:recovery_mechanism=1, default off): the refinement loop burns the whole iteration limit on a 10x10 LP and ends ABORT_ITER although rational reconstruction is available', regex=True,
-      repro='./vcheck C03 --seed 7: key C03:undecided.ABORT_ITER:{recovery_mechanism=1}+onlyreal')
+open_(['C03'], r'undecided\.[A-Z_]+:\{[^}]+\}.*',
+      'exact solves with NON-default exact-solver options that keep rational reconstruction or factorization enabled can end undecided: observed ABORT_ITER with recovery_mechanism=1 (the refinement loop burns the iteration limit on a 10x10 LP), ERROR with {precision_boosting=0} in real-only sync mode and with {ratrec=0,testdualinf=1} (truth INFEASIBLE).  The default options (empty minimal cell) are not covered by this entry', regex=True,
+      repro='./vcheck C03 --seed 7 and --seed 3: keys C03:undecided.ABORT_ITER:{recovery_mechanism=1}+onlyreal, C03:undecided.ERROR:{precision_boosting=0}+onlyreal, C03:undecided.ERROR:{ratrec=0,testdualinf=1}')
 open_(['C03', 'C04', 'C11'], r'.*lifting=1.*',
       'exact solve with lifting=1: heap-buffer-overflow / use-after-free in _lowerFinite/_transformEquality (bound-type arrays not resized for the lifted LP), wrong verdicts, invalid Farkas proofs and rays', regex=True)
 open_(['C03'], r'objvalue.*:\{.*iterative_refinement=0.*\}.*',
